@@ -533,14 +533,17 @@ def line_real(tool, line, level=0, clock='none', rc=0):
         except Exception as e:  # noqa
             return 'raise ' + excname(e)
         if kept:
-            return 'route %d,%s,%d' % kept[0]
+            return 'route %d,%s,%d' % tuple(kept[0][:3])
         if tool == 'x':
             return 'skip'
         FakePopen.output = line
         extractor = server._route_iproute if tool in 'ib' else server._route_netstat
-        raw = server._list_routes(['x'], extractor)
-        if raw:
-            return 'filt %d,%s,%d' % raw[0]
+        try:
+            raw = server._list_routes(['x'], extractor)        # internal: only (family, ip, width) is looked at
+            if raw:
+                return 'filt %d,%s,%d' % tuple(raw[0][:3])
+        except Exception:  # noqa  (internal shape changed: list_routes above already said nothing is advertised)
+            pass
         return 'skip'
     finally:
         clear_clock(clock_undo)
@@ -778,7 +781,12 @@ SYNC = b'\0\0SSHUTTLE0001'
 GW = [b'0.0.0.0', b'192.168.1.1', b'10.0.0.1', b'link#4', b'*']
 IP_REST = [b'dev eth0 proto kernel scope link src 192.168.1.7', b'via 10.0.0.1 dev eth0', b'dev tun0 scope link',
            b'via 192.168.1.1 dev wlan0 proto static metric 600', b'dev docker0 proto kernel scope link src 172.17.0.1 linkdown',
-           b'', b'dev lo']
+           b'', b'dev lo',
+           b'proto static metric 100', b'via 10.0.0.1', b'via 10.0.0.1 proto static metric 20', b'proto static',
+           b'scope link', b'via 10.0.0.1 onlink', b'proto bird metric 32', b'nhid 12 proto static metric 100',
+           b'via inet6 fe80::1 dev eth0', b'dev eth0 proto dhcp scope link src 10.0.0.5 metric 100 mtu 1400 advmss 1360']
+NEXTHOPS = [b'\tnexthop via 10.0.0.1 dev eth0 weight 1\n', b'\tnexthop via 10.0.0.2 dev eth1 weight 1\n',
+            b'\tnexthop dev tun0 weight 2\n']
 NS_REST = [b'U 0 0 0 eth0', b'UG 0 0 0 wlan0', b'UGH 100 0 0 tun0', b'U']
 BSD_FLAGS = [b'UGSc', b'UCS', b'UH', b'UHLWIi', b'UCSI', b'UGScI']
 BSD_REST = [b'en0', b'lo0', b'utun3 1500', b'17 0 en0']
@@ -828,8 +836,10 @@ def iproute_line(rng, n=None):
     if r < 0.62:
         return b'default' + sep(rng) + b'via 192.168.1.1 dev wlan0  proto static' + nl(rng), ('omit',)
     if r < 0.68:
-        kw = rng.choice([b'blackhole', b'unreachable', b'prohibit', b'throw', b'broadcast', b'local', b'multicast'])
-        return kw + b' ' + dotted(rand_addr(rng)) + rng.choice([b'', b'/%d' % rng.randrange(0, 33)]) + b' proto static' + nl(rng), ('omit',)
+        kw = rng.choice([b'blackhole', b'unreachable', b'prohibit', b'throw', b'broadcast', b'local', b'multicast',
+                         b'unicast', b'anycast', b'nat'])
+        tail = rng.choice([b' proto static', b'', b' dev eth0 proto kernel scope link', b' via 10.0.0.1 dev eth0', b' metric 1024'])
+        return kw + b' ' + dotted(rand_addr(rng)) + rng.choice([b'', b'/%d' % rng.randrange(0, 33)]) + tail + nl(rng), ('omit',)
     if r < 0.74:
         a = rand_addr(rng)
         return dotted(a) + sep(rng) + rng.choice(IP_REST[:5]) + nl(rng), ('barehost', dotted(a).decode())
@@ -839,6 +849,18 @@ def iproute_line(rng, n=None):
     if r < 0.86:
         return rng.choice([b'\n', b'   \n', b'\t\n', b'\r\n', b'\x0b\x0c\n', b' ']), ('omit',)
     return junk_line(rng, 'i')
+
+
+def with_nexthops(pairs):
+    """iproute2 prints an ECMP / multipath route as a head line `a.b.c.d/n proto … metric …` (no `dev`, no `via`)
+    followed by indented `nexthop …` lines; add those after every such head."""
+    out = []
+    for k, (line, intent) in enumerate(pairs):
+        out.append((line, intent))
+        if intent[0] == 'route' and b' dev ' not in line and b' via ' not in line and b'proto' in line:
+            for j in range(1 + k % 3):
+                out.append((NEXTHOPS[(k + j) % len(NEXTHOPS)], ('omit',)))
+    return out
 
 
 def junk_line(rng, tool):
@@ -1466,6 +1488,8 @@ def gen_cases(ctx):
         n = rng.choice([0, 1, 2, 3, 5, 8, 13, 30, rng.randrange(0, 60)])
         gen = iproute_line if tool != 'n' else netstat_line
         pairs = [gen(rng) for _ in range(n)]
+        if tool != 'n':
+            pairs = with_nexthops(pairs)
         flags = rng.choice(['101', '101', '101', '111', '011', '001', '100', '110', '000', '010'])
         logs.append(table_case(ctx, tool, [p[0] for p in pairs], [p[1] for p in pairs], flags,
                                verbose=[None, rng.choice([0, 0, 1, 2])][0], real=(i % 8 == 5)))   # draw kept: streams unchanged
